@@ -108,7 +108,7 @@ class RunTest:
             if self._exceptions:
                 # One or more caught exceptions, now trigger the test's
                 # reporting method for just one.
-                e = self._exceptions.pop()
+                e = self._get_exception_to_report()
                 for exc_class, handler in self.handlers:
                     if isinstance(e, exc_class):
                         handler(self.case, self.result, e)
@@ -119,6 +119,25 @@ class RunTest:
         finally:
             result.stopTest(self.case)
         return result
+
+    def _get_exception_to_report(self):
+        """Pick the caught exception that decides the outcome.
+
+        Normally that is the last one raised.  However an exception that no
+        handler claims (KeyboardInterrupt, SystemExit) must always reach the
+        handler of last resort and be re-raised, and a skip or an expected
+        failure raised by a later stage must not hide a failure or an error.
+        """
+        # Circular import.
+        from testtools.testcase import _ExpectedFailure
+
+        handled = tuple(exc_class for exc_class, handler in self.handlers)
+        for e in self._exceptions:
+            if not isinstance(e, handled):
+                return e
+        harmless = (getattr(self.case, "skipException", ()), _ExpectedFailure)
+        serious = [e for e in self._exceptions if not isinstance(e, harmless)]
+        return (serious or self._exceptions)[-1]
 
     def _run_core(self):
         """Run the user supplied test code."""
